@@ -4,6 +4,7 @@ import (
 	"fmt"
 	"go/token"
 	"go/types"
+	"regexp"
 	"strings"
 
 	"golang.org/x/tools/go/ssa"
@@ -187,6 +188,8 @@ func checkC04(P *Prog, r *Result) {
 		return funcPkgPath(fn) == pkgInternals
 	})
 	r.floor("C04/absent-at-provider", 3)
+	// ---- present-at-provider: the converse ----
+	P.checkPresentAtProvider(r, "C04/present-at-provider")
 	// a required/not_nil issue must reach the collection: the context of a non-catching node is catch-clean
 	ca := P.newCatchAnalysis()
 	dsites := P.allDispatchSites(ca)
@@ -536,4 +539,64 @@ func lenPositive(bo *ssa.BinOp, truth bool) bool {
 		return k >= 1
 	}
 	return false
+}
+
+// checkPresentAtProvider: a provider's Get reports a key as absent (returns a
+// nil interface) only when the key is missing from its source. On the formula
+// of Get (helpers entered): every path that returns nil carries a negated
+// presence atom - the comma-ok of a lookup false, a zero length of the entry,
+// reflect's IsValid / CanInterface false. A path that returns nil for any
+// other reason (the value is zero, empty, of some kind) turns a present value
+// into an absent one: Required then fails and Default replaces a value the
+// caller supplied.
+var presenceAtoms = []*regexp.Regexp{
+	regexp.MustCompile(`^!.*\]#1$`),
+	regexp.MustCompile(`^!\(reflect\.Value\)\.(IsValid|CanInterface)\(`),
+	regexp.MustCompile(`^\(len\(.*\) (== 0|<= 0|< 1)\)$`),
+	regexp.MustCompile(`^\(.* == nil\)$`),
+}
+
+func (P *Prog) checkPresentAtProvider(r *Result, rule string) {
+	n := 0
+	for _, fn := range P.Funcs {
+		if fn.Name() != "Get" || fn.Parent() != nil || fn.Signature.Recv() == nil || !P.isProviderType(fn.Signature.Recv().Type()) || len(fn.Params) != 2 {
+			continue
+		}
+		r.sawFunc(fname(fn))
+		n++
+		sh := P.predicateShapeNamed(fn, map[ssa.Value]string{fn.Params[0]: "recv", fn.Params[1]: "key"})
+		if len(sh.problems) > 0 || len(sh.paths) == 0 {
+			r.undecided(rule, fname(fn), P.pos(fn.Pos()), "Get has an unrecognised shape: "+strings.Join(sh.problems, "; "))
+			continue
+		}
+		var bad, rows []string
+		nNil := 0
+		for _, p := range sh.paths {
+			rows = append(rows, strings.Join(p.conds, " ∧ ")+" ⇒ "+p.ret)
+			if p.ret != "nil" {
+				continue
+			}
+			nNil++
+			if len(p.conds) == 0 && len(sh.paths) == 1 {
+				continue // the empty provider: nothing is ever present
+			}
+			has := false
+			for _, c := range p.conds {
+				for _, re := range presenceAtoms {
+					if re.MatchString(c) {
+						has = true
+					}
+				}
+			}
+			if !has {
+				bad = append(bad, "a value that is present in the source is reported as absent when "+strings.Join(p.conds, " ∧ "))
+			}
+		}
+		if len(bad) > 0 {
+			r.bad(rule, fname(fn), P.pos(fn.Pos()), strings.Join(uniqSorted(bad), "; "), rows...)
+		} else {
+			r.ok(rule, fname(fn), P.pos(fn.Pos()), fmt.Sprintf("%d path(s), %d return nil, each only when the key is missing from the source", len(sh.paths), nNil), rows...)
+		}
+	}
+	r.floor(rule, 3)
 }
